@@ -291,7 +291,7 @@ def parse_dfxp(text):
     region_order, divs:[{lang, region, ps:[{begin,end,region,style,attrs,lines,chars}]}],
     all_ids, refs}"""
     try:
-        root = etree.fromstring(text.encode("utf-8"), etree.XMLParser(recover=False, resolve_entities=False))
+        root = etree.fromstring(text.encode("utf-8"), etree.XMLParser(recover=False, resolve_entities=False, collect_ids=False))
     except etree.XMLSyntaxError as e:
         raise RefParseError(f"not well-formed XML: {e}")
     if root.tag != _q(TTML, "tt"):
